@@ -47,6 +47,13 @@ def condition_detect_in_statements(statements: List[Statement],
     previous_st: Optional[Statement] = None
     in_else: bool = False
 
+    # A forward jump that leaves the loop is an exit repeat, wherever it is
+    if repeat_op is not None:
+        for st in statements:
+            if (isinstance(st.code, JumpOperation) and
+                cast(JumpOperation, st.code).address > repeat_op.end_position):
+                st.code = ExitRepeat(st.position)
+
     # Search for jump operations
     for st in statements:                    
         if isinstance(st.code, RepeatOperation):
